@@ -21,9 +21,18 @@ type (
 		Str  *string
 		Nil  bool
 	}
-	EBin   struct{ Op string; X, Y Expr }
-	EUn    struct{ Op string; X Expr }
-	ESel   struct{ X Expr; Name string }
+	EBin struct {
+		Op   string
+		X, Y Expr
+	}
+	EUn struct {
+		Op string
+		X  Expr
+	}
+	ESel struct {
+		X    Expr
+		Name string
+	}
 	EIndex struct{ X, I Expr }
 	ESlice struct{ X, Lo, Hi Expr }
 	ECall  struct {
@@ -32,17 +41,26 @@ type (
 		Args []Expr
 		Recv Expr // method call on a value (deterministic extern accessor)
 	}
-	EOld   struct{ X Expr }
+	EOld    struct{ X Expr }
 	EBefore struct{ X Expr } // value in the state at entry of the innermost annotated loop
-	EQuant struct {
+	EQuant  struct {
 		Forall bool
 		Vars   []Binder
 		Body   Expr
 	}
-	EConv       struct{ T *TypeExpr; X Expr }
-	ETypeAssert struct{ X Expr; T *TypeExpr }
-	ETypeIs     struct{ X Expr; T *TypeExpr }
-	EIte        struct{ C, A, B Expr }
+	EConv struct {
+		T *TypeExpr
+		X Expr
+	}
+	ETypeAssert struct {
+		X Expr
+		T *TypeExpr
+	}
+	ETypeIs struct {
+		X Expr
+		T *TypeExpr
+	}
+	EIte struct{ C, A, B Expr }
 )
 
 type Binder struct {
@@ -142,7 +160,7 @@ type FuncContract struct {
 	Loops       []*LoopAnn
 	Calls       []*CallAnn
 	Flags       map[string]bool
-	Verified    bool // contract on a dependency function that is verified, not assumed
+	Verified    bool                // contract on a dependency function that is verified, not assumed
 	UsesHide    map[string][]string // postcondition label -> opaque predicates kept opaque while proving it
 	Uses        map[string][]string // postcondition label -> labels of postconditions assumed while proving it
 	Dispatch    map[string][]string // interface type key -> allowed dynamic types
@@ -189,7 +207,18 @@ type TagDecl struct {
 	Line   int
 }
 
+// WritersDecl: the complete list of functions that may store to a struct field (or, with the suffix "[]", update or
+// delete elements of maps of that field's type).  A syntactic obligation over the SSA of every function of the module:
+// it closes the hole modular verification leaves open - a function without a contract that writes verified state.
+type WritersDecl struct {
+	Path    string // pkg.Type.Field or pkg.Type.Field[]
+	Serves  []string
+	Allowed []string
+	Line    int
+}
+
 type SpecFile struct {
+	Writers []WritersDecl
 	Tags    []TagDecl
 	File    string
 	PkgName string
@@ -661,7 +690,7 @@ func parseExprString(s string) (e Expr, err error) {
 // ---------------------------------------------------------------------------
 // Contract file reader
 
-var topKeywords = map[string]bool{"opaque": true, "deterministic": true, "func": true, "ghost": true, "ufunc": true, "pure": true, "pred": true, "axiom": true, "lemma": true, "type": true, "extern": true, "tag": true, "verified": true}
+var topKeywords = map[string]bool{"opaque": true, "deterministic": true, "func": true, "ghost": true, "ufunc": true, "pure": true, "pred": true, "axiom": true, "lemma": true, "type": true, "extern": true, "tag": true, "verified": true, "writers": true}
 var clauseKeywords = map[string]bool{"unfold": true, "fold": true, "owns": true, "reveal": true, "cases": true, "dispatch": true, "requires": true, "ensures": true, "modifies": true, "serves": true, "loop": true, "invariant": true,
 	"at": true, "after": true, "assert": true, "assume": true, "flag": true, "set": true, "uses": true}
 
@@ -909,6 +938,18 @@ func readSpecFile(path string, isSpec bool) (*SpecFile, error) {
 				return nil, perr(g, err)
 			}
 			sf.Pures = append(sf.Pures, pd)
+			cur = nil
+		case "writers":
+			// writers pkg.Type.Field[[]] serves Cxx ... = fnkey fnkey ...
+			i := strings.Index(rest, "=")
+			if i < 0 {
+				return nil, perr(g, fmt.Errorf("writers: expected 'writers pkg.Type.Field serves Cxx = <function keys>'"))
+			}
+			f := strings.Fields(rest[:i])
+			if len(f) < 3 || f[1] != "serves" {
+				return nil, perr(g, fmt.Errorf("writers: expected 'writers pkg.Type.Field serves Cxx = <function keys>'"))
+			}
+			sf.Writers = append(sf.Writers, WritersDecl{Path: f[0], Serves: f[2:], Allowed: strings.Fields(rest[i+1:]), Line: g.line})
 			cur = nil
 		case "tag":
 			// tag pkg.Type.Field serves Cxx = <exact struct tag>   (syntactic obligation: the field's tag is this string)
